@@ -1255,7 +1255,7 @@ fn compile_block_exprs(
             pat:
                 Pat::PVar {
                     name,
-                    ty: pat_ty,
+                    ty: _,
                     astptr: _,
                 },
             value,
@@ -1267,7 +1267,7 @@ fn compile_block_exprs(
                 name: name.clone(),
                 value: Box::new(core_value),
                 body: Box::new(core_body),
-                ty: pat_ty.clone(),
+                ty: ty.clone(),
             }
         }
         ELet { pat, value, ty: _ } => {
